@@ -207,14 +207,14 @@ PROPS["C10"] = {
                    "of a type overlap. The binary is built with -race (halt_on_error): any happens-before violation on executed accesses aborts the worker "
                    "and is attributed through the case journal; panics and deadlock (60 s) are failures; every call's result must equal the result of the "
                    "same call on a private codec run sequentially."),
-    "level_note": "The race detector sees only executed accesses; schedules are whatever the Go scheduler produces (GOMAXPROCS of the host), not enumerated. A journalled case that killed the worker is re-run 25 times in a fresh process to confirm.",
+    "level_note": "The race detector sees only executed accesses; schedules are whatever the Go scheduler produces, not enumerated; the thorough tier runs its shards at GOMAXPROCS 2, 3, 4, 8 and 16 to vary them. A journalled case that killed the worker is re-run 25 times in a fresh process to confirm.",
     "rule": ("fresh/global: pgen Supported schema with a unique package per case, mgen messages, threads x ops drawn by rapid (50% of cases force every "
              "goroutine's first op onto the same type; 25% pre-warm one type). Non-trivial: >=2 goroutines start on the same type that the shared "
              "cache has never seen. Distinct by hash(roots, messages, op lists)."),
     "assumptions": ["messages are cloned per call: the property is about the shared codec, not about sharing one message between goroutines"],
     "lanes": [
-        lane("TestFresh", "fresh", 400, 2000, shards=16, must_classes=["cold-type-contended", "recursive-types"]),
-        lane("TestGlobal", "global", 300, 1500, shards=8, must_classes=["cold-type-contended"]),
+        lane("TestFresh", "fresh", 400, 2000, shards=16, gomaxprocs_cycle=[2, 3, 4, 8, 16], must_classes=["cold-type-contended", "recursive-types"]),
+        lane("TestGlobal", "global", 300, 1500, shards=8, gomaxprocs_cycle=[2, 4, 8, 16], must_classes=["cold-type-contended"]),
     ],
 }
 
